@@ -356,6 +356,7 @@ func (e *env) drivePeers(d *driverSet, allowBad, allowDisconnect bool, scale int
 					end = dsim.Choose(3) // 0 stay, 1 close, 2 reset
 				}
 				d.spawn("peer-drv", func() {
+					e.waitStarted() // a datagram sent before the node has bound its port is simply lost
 					dsim.Sleep(delay)
 					var l *link
 					var err error
